@@ -251,6 +251,9 @@ fn interrupt_nodes(c: &Interrupts) -> Vec<Node> {
                 open: Tr::PLAIN,
                 close: Tr::PLAIN,
             },
+            // the guarded interrupt sits in an included partial (it shares the caller's scope, so
+            // the interrupt acts on the caller's loop exactly as if written in place)
+            3 => Node::Include { name: Expr::str(if c.is_break { "brk" } else { "cnt" }), args: vec![("k".into(), Expr::int(c.k))], t: Tr::PLAIN },
             _ => Node::If { arms: vec![(cond, inner, Tr::PLAIN)], else_: None, close: Tr::PLAIN },
         }
     };
@@ -288,11 +291,22 @@ fn interrupt_nodes(c: &Interrupts) -> Vec<Node> {
 
 fn interrupt_oracle(c: &Interrupts, obs: &mut Obs) -> Check {
     obs.nt(c);
+    if c.wrap == 3 {
+        let partial = |intr: Node| {
+            vec![Node::If { arms: vec![(Cond::atom(Atom::Cmp(Expr::path("forloop", &["index"]), "==".into(), Expr::var("k"))), vec![txt("!"), intr, txt("UNREACHED")], Tr::PLAIN)], else_: None, close: Tr::PLAIN }]
+        };
+        let sc = crate::progs::Scenario {
+            main: interrupt_nodes(c),
+            partials: vec![("brk".into(), crate::progs::PDef::Ok(partial(Node::Break(Tr::PLAIN)))), ("cnt".into(), crate::progs::PDef::Ok(partial(Node::Continue(Tr::PLAIN))))],
+            data: obj(vec![]),
+        };
+        return crate::progs::differential(&sc, obs, "interrupt(in an included partial)").map(|_| ());
+    }
     differential(&interrupt_nodes(c), &obj(vec![]), &[], obs, "interrupt")
 }
 
 fn interrupt_nth(i: u64) -> Option<Interrupts> {
-    let d = decode(i, &[5, 5, 2, 3, 5, 3])?;
+    let d = decode(i, &[5, 5, 2, 3, 5, 4])?;
     Some(Interrupts { n: d[0] as i64, m: d[1] as i64, is_break: d[2] == 1, level: d[3] as u8, k: d[4] as i64 + 1, wrap: d[5] as u8 })
 }
 
@@ -377,9 +391,9 @@ fn limit_ranges() -> Vec<Rand> {
 }
 
 pub fn run(ctx: &Ctx) {
-    ctx.set_rule("E2 cube: collection length 0..6 x offset {absent,0..8} x limit {absent,0..8} x reversed x {for, tablerow cols absent/1..4} x {array, literal range, variable-bound range, descending range, single-key object, nil} x attributes as literals / through variables, body prints the item and every forloop/tablerow field, for-else present; objects with 2..8 keys (iteration order unspecified) by a validity predicate: the right number of iterations, every visited element a distinct entry, fields truthful, else branch exactly when nothing is selected; second cube: break/continue guarded by forloop.index == k (k 1..5) at three positions of two nested loops (n, m 0..4), guard wrapped in if / capture / case; E1: headers with n <= 40, random nested loop programs. Oracle: reference interpreter. Non-trivial = window differs from the whole collection (offset/limit/reversed) or an interrupt is present; distinct by case.");
+    ctx.set_rule("E2 cube: collection length 0..6 x offset {absent,0..8} x limit {absent,0..8} x reversed x {for, tablerow cols absent/1..4} x {array, literal range, variable-bound range, descending range, single-key object, nil} x attributes as literals / through variables, body prints the item and every forloop/tablerow field, for-else present; objects with 2..8 keys (iteration order unspecified) by a validity predicate: the right number of iterations, every visited element a distinct entry, fields truthful, else branch exactly when nothing is selected; second cube: break/continue guarded by forloop.index == k (k 1..5) at three positions of two nested loops (n, m 0..4), guard wrapped in if / capture / case / an included partial; E1: headers with n <= 40, random nested loop programs. Oracle: reference interpreter. Non-trivial = window differs from the whole collection (offset/limit/reversed) or an interrupt is present; distinct by case.");
     ctx.exhaustive("headers", 7 * 10 * 10 * 2 * 6 * 6 * 2, header_nth, header_oracle);
-    ctx.exhaustive("interrupts", 5 * 5 * 2 * 3 * 5 * 3, interrupt_nth, interrupt_oracle);
+    ctx.exhaustive("interrupts", 5 * 5 * 2 * 3 * 5 * 4, interrupt_nth, interrupt_oracle);
     ctx.cases("ranges_at_i64_limits", limit_ranges(), rand_oracle);
     ctx.exhaustive("multi_key_objects", 7 * 10 * 10 * 2 * 2, multi_key_nth, multi_key_oracle);
     ctx.random("big_headers", ctx.pick(150_000, 3_000_000), big_header, header_oracle);
